@@ -66,7 +66,7 @@ NPROC = 16
 # max_success is per rapidcheck property and per process (tree-rc has two properties).
 TIERS = {
     "quick": dict(K=8, tree_success=150, map_success=100, maxops=10000, maxkeys=5000, timeout=900),
-    "thorough": dict(K=10, tree_success=6000, map_success=1500, maxops=100000, maxkeys=5000, timeout=6 * 3600),
+    "thorough": dict(K=10, tree_success=6000, map_success=800, maxops=100000, maxkeys=5000, timeout=6 * 3600),
 }
 
 SMALLCAP_CASE = {"mode": "map-rc", "text": "c=0 h=0 P61 G62", "env": {"MAPTREE_SMALLCAP": "exec", "MAPTREE_WATCHDOG": "5"}}
